@@ -23,9 +23,37 @@ pub struct Out {
     pub samples: Vec<Value>,
 }
 
+/// RFC 0044, written out here (not the repository's MergeHeaderDigest): the parent digest hashes its
+/// children's digests, adds their difficulties, and spans from the left child's start to the right
+/// child's end in number, epoch, timestamp and compact target
 fn merge(l: &packed::HeaderDigest, r: &packed::HeaderDigest) -> packed::HeaderDigest {
-    use ckb_merkle_mountain_range::Merge;
-    MergeHeaderDigest::merge(l, r).expect("merge of consecutive digests")
+    let children_hash = {
+        let mut data = Vec::with_capacity(64);
+        data.extend_from_slice(&blake2b_256(l.as_slice()));
+        data.extend_from_slice(&blake2b_256(r.as_slice()));
+        blake2b_256(&data)
+    };
+    let td: U256 = { let a: U256 = l.total_difficulty().into(); let b: U256 = r.total_difficulty().into(); a + b };
+    packed::HeaderDigest::new_builder()
+        .children_hash(Byte32::from_slice(&children_hash).unwrap())
+        .total_difficulty(td)
+        .start_number(l.start_number()).end_number(r.end_number())
+        .start_epoch(l.start_epoch()).end_epoch(r.end_epoch())
+        .start_timestamp(l.start_timestamp()).end_timestamp(r.end_timestamp())
+        .start_compact_target(l.start_compact_target()).end_compact_target(r.end_compact_target())
+        .build()
+}
+/// the leaf of a header, written out here as well
+fn leaf(h: &HeaderView) -> packed::HeaderDigest {
+    let raw = h.data().raw();
+    packed::HeaderDigest::new_builder()
+        .children_hash(h.hash())
+        .total_difficulty(h.difficulty())
+        .start_number(raw.number()).end_number(raw.number())
+        .start_epoch(raw.epoch()).end_epoch(raw.epoch())
+        .start_timestamp(raw.timestamp()).end_timestamp(raw.timestamp())
+        .start_compact_target(raw.compact_target()).end_compact_target(raw.compact_target())
+        .build()
 }
 
 /// the specification, structurally: nodes in post order and the bagged root
@@ -35,7 +63,7 @@ pub(crate) fn expected(headers: &[HeaderView]) -> (Vec<packed::HeaderDigest>, Ve
     let mut peaks: Vec<(u32, packed::HeaderDigest)> = vec![]; // left to right
     let mut roots = vec![];
     for h in headers {
-        let d = h.digest();
+        let d = leaf(h);
         nodes.push(d.clone());
         peaks.push((0, d));
         while peaks.len() >= 2 && peaks[peaks.len() - 1].0 == peaks[peaks.len() - 2].0 {
@@ -56,14 +84,20 @@ pub(crate) fn expected(headers: &[HeaderView]) -> (Vec<packed::HeaderDigest>, Ve
     (nodes, roots)
 }
 
-fn ndig(d: &packed::HeaderDigest) -> (u64, u64, u128) {
+/// the numeric part of a digest and its start / end (epoch, timestamp, compact target)
+type NDig = ((u64, u64, u128), (u64, u64, u64), (u64, u64, u64));
+fn ndig(d: &packed::HeaderDigest) -> NDig {
     let s: u64 = d.start_number().into();
     let e: u64 = d.end_number().into();
     let td: U256 = d.total_difficulty().into();
-    (s, e, format!("{}", td).parse::<u128>().unwrap())
+    let (se, ee): (u64, u64) = (d.start_epoch().into(), d.end_epoch().into());
+    let (st, et): (u64, u64) = (d.start_timestamp().into(), d.end_timestamp().into());
+    let (sc, ec): (u32, u32) = (d.start_compact_target().into(), d.end_compact_target().into());
+    ((s, e, format!("{}", td).parse::<u128>().unwrap()), (se, st, sc as u64), (ee, et, ec as u64))
 }
-fn ndig_coq(d: &(u64, u64, u128)) -> String {
-    format!("({}, {}, {})", coq_n(d.0 as u128), coq_n(d.1 as u128), coq_n(d.2))
+fn ndig_coq(d: &NDig) -> String {
+    let t3 = |a: u128, b: u128, c: u128| format!("({}, {}, {})", coq_n(a), coq_n(b), coq_n(c));
+    format!("({}, {}, {})", t3(d.0 .0 as u128, d.0 .1 as u128, d.0 .2), t3(d.1 .0 as u128, d.1 .1 as u128, d.1 .2 as u128), t3(d.2 .0 as u128, d.2 .1 as u128, d.2 .2 as u128))
 }
 
 pub fn run(seed: u64, thorough: bool, out_dir: &std::path::Path, scratch: &std::path::Path) -> Out {
@@ -86,7 +120,7 @@ pub fn run(seed: u64, thorough: bool, out_dir: &std::path::Path, scratch: &std::
         let mut lrng = Rng(frng.0 ^ 0x11c);
         let r = std::panic::catch_unwind(std::panic::AssertUnwindSafe(|| {
             let mut h = Hist::new(cfg.clone(), scratch.join(format!("n{hi}")), false);
-            let mut steps: Vec<(u64, Vec<(u64, u64, u128)>, Vec<(u64, u64, u128)>, Vec<(u64, u64, u128)>)> = vec![];
+            let mut steps: Vec<(u64, Vec<NDig>, Vec<NDig>, Vec<NDig>)> = vec![];
             // BlockExtensionVerifier's verdicts (Chain/Extension.v recomputes them): (root, extra fields, extension, accepted)
             let mut ext_cases: Vec<(Vec<u8>, u64, Option<Vec<u8>>, bool)> = vec![];
             let mut viol: Vec<Value> = vec![];
@@ -273,7 +307,7 @@ pub fn run(seed: u64, thorough: bool, out_dir: &std::path::Path, scratch: &std::
                     }
                     if c.what != "restart" {
                         let n_common = (main.len() - c.attached.len()) as u64;
-                        let att: Vec<(u64, u64, u128)> = c.attached.iter().map(|id| ndig(&h.block_by_id(*id).header().digest())).collect();
+                        let att: Vec<NDig> = c.attached.iter().map(|id| ndig(&h.block_by_id(*id).header().digest())).collect();
                         steps.push((n_common, att, got_nodes, got_roots));
                     }
                 };
